@@ -252,7 +252,8 @@ Fun1(f, v) ==
            (IF IsNum(v) /\ ExactRat(v) /\ RLess(v.re, <<300, 1>>)
             THEN (IF v.re[1] < 0 THEN V0 ELSE VInt(PrimePiN(RFloor(v.re)[1]))) ELSE VUndef)
       [] f = "primorial" ->
-           (IF IsNum(v) /\ ExactRat(v) /\ v.re[1] >= 0 /\ RLess(v.re, <<30, 1>>)
+           \* defined by the library for positive arguments only
+           (IF IsNum(v) /\ ExactRat(v) /\ RLeq(R1, v.re) /\ RLess(v.re, <<30, 1>>)
             THEN VRat(PrimorialN(RFloor(v.re)[1])) ELSE VUndef)
       [] OTHER -> VUndef
 
